@@ -96,6 +96,21 @@ def natOfDigits (ds : Bytes) : Nat := ds.foldl (fun a c => a * 10 + (c.toNat - 4
 def SignTok (sg : Bytes) (neg : Bool) : Prop :=
   (sg = [] ∧ neg = false) ∨ (sg = [0x2B] ∧ neg = false) ∨ (sg = [0x2D] ∧ neg = true)
 
+def AllDigits (ds : Bytes) : Prop := ∀ c ∈ ds, is09 c = true
+
+/-- optional fraction: nothing, or a point followed by any number of digits -/
+def FracPart (fr : Bytes) : Prop := fr = [] ∨ ∃ fd, fr = 0x2E :: fd ∧ AllDigits fd
+
+/-- optional exponent: nothing, or `e`/`E`, an optional sign and at least one digit -/
+def ExpPart (ex : Bytes) : Prop :=
+  ex = [] ∨ ∃ e es ed, ex = e :: (es ++ ed) ∧ (e = 0x65 ∨ e = 0x45) ∧ (es = [] ∨ es = [0x2B] ∨ es = [0x2D]) ∧
+    ed ≠ [] ∧ AllDigits ed
+
+/-- core EDN floating-point token: sign, decimal integer part, fraction and/or exponent -/
+def FloatTok (tok : Bytes) : Prop :=
+  ∃ sg ip fr ex neg, tok = sg ++ ip ++ fr ++ ex ∧ SignTok sg neg ∧ DecDigits ip ∧ FracPart fr ∧ ExpPart ex ∧
+    (fr ≠ [] ∨ ex ≠ [])
+
 /-- code point named by a character literal body (after the backslash) -/
 inductive CharBody : Bytes → Nat → Prop
   | newline : CharBody "newline".toUTF8.toList 0x0A
@@ -133,6 +148,14 @@ inductive Renders (cfg : Cfg) : Nat → Val → Bytes → Prop
   /-- … and the `N` suffix forces a big integer -/
   | bigN (k : Nat) (sg ds : Bytes) (neg : Bool) (hs : SignTok sg neg) (hd : DecDigits ds) :
       Renders cfg k (.bigint hdr0 neg 10 ds) (sg ++ ds ++ [0x4E])
+  /-- floating-point numbers read as the double nearest to the token's exact decimal value
+      (`decimalParts`: sign, all digits as one integer, net power of ten) -/
+  | float (k : Nat) (tok : Bytes) (h : FloatTok tok) :
+      Renders cfg k (.float hdr0 (let p := decimalParts tok; withSign p.1 (ofDec p.2.1 p.2.2))) tok
+  /-- an integer or float token followed by `M` is a big decimal keeping its text -/
+  | bigdec (k : Nat) (sg body : Bytes) (neg : Bool) (hs : SignTok sg neg) (hb : DecDigits body ∨ FloatTok body)
+      (hnosign : ∀ c, body.head? = some c → c ≠ 0x2B ∧ c ≠ 0x2D) :
+      Renders cfg k (.bigdec hdr0 neg body) (sg ++ body ++ [0x4D])
   /-- strings (with the experimental flag the empty literal is left out: `""` directly
       followed by `"` and a line feed would spell a text-block opener) -/
   | str (k : Nat) (sp dn : Bytes) (h : StrContent cfg sp dn) (hne : cfg.exp = true → sp ≠ []) :
